@@ -179,7 +179,7 @@ def build_models():
     """Compile all Model/*.v, extract them, build the OCaml driver (cached by hash)."""
     models = sorted(glob.glob(os.path.join(THEORIES, "Model", "*.v")))
     translate()
-    ok, out = coq_make(["theories/Gen/Linkage.vo"] + [os.path.relpath(m, COQ) + "o" for m in models] + ["theories/Proofs/VarScopeProofs.vo"])
+    ok, out = coq_make(["theories/Gen/Linkage.vo"] + [os.path.relpath(m, COQ) + "o" for m in models] + ["theories/Proofs/VarScopeProofs.vo", "theories/Proofs/ResolveProofs.vo"])
     if not ok:
         return False, out
     with Lock("extract"):
